@@ -308,7 +308,7 @@ func doTraverseMap(newMatches *orderedmap.OrderedMap, node *CandidateNode, wante
 			if err != nil {
 				return err
 			}
-		} else if splat || (prefs.ExactKeyMatch && key.Value == wantedKey) || (!prefs.ExactKeyMatch && keyMatches(key, wantedKey)) {
+		} else if splat || (prefs.ExactKeyMatch && key.unwrapAlias().Value == wantedKey) || (!prefs.ExactKeyMatch && keyMatches(key.unwrapAlias(), wantedKey)) {
 			log.Debug("MATCHED")
 			// entries found again through a merge key replace those found before; which entry is "the same" goes by
 			// the key, and the keys 1 and "1" of one map are two keys
